@@ -80,7 +80,7 @@ MCSpec == MCInit /\ [][MCNext]_mcvars
 (* or a legal cycle report exists.                                               *)
 LegalCycle(list) ==
   /\ Len(list) >= 2 /\ list[1] = target
-  /\ \A i \in 1..(Len(list) - 1) : WaitsFor(list[i], list[i+1])
+  /\ \A i \in 1..(Len(list) - 1) : CycleEdge(list[i], list[i+1])
   /\ \E i \in 1..(Len(list) - 1) : list[i] = list[Len(list)]
 NoStall ==
   (Running /\ EngineFree /\ ~cyc /\ cancelled = "no" /\ Stuck) =>
@@ -89,7 +89,7 @@ NoStall ==
 RECURSIVE Reach(_,_)
 Edges(k) == IF IsLeaf(k) THEN {} ELSE
    {prog[k].start[i].k : i \in 1..Len(prog[k].start)} \cup {prog[k].dynThen[i].k : i \in 1..Len(prog[k].dynThen)}
-   \cup {prog[k].dynElse[i].k : i \in 1..Len(prog[k].dynElse)}
+   \cup {prog[k].dynElse[i].k : i \in 1..Len(prog[k].dynElse)} \cup {prog[k].disc[i] : i \in 1..Len(prog[k].disc)}
 Reach(S, n) == IF n = 0 THEN S ELSE Reach(S \cup UNION {Edges(k) : k \in S}, n - 1)
 ProgCyclic == \E k \in Keys : k \in Reach(Edges(k), Cardinality(Keys))
 NoFalseCycle == cyc => ProgCyclic
